@@ -1,6 +1,7 @@
 import ComposeVerif.Ops.Common
 import ComposeVerif.Model.Secrets
 import ComposeVerif.Model.SecretsBytes
+import ComposeVerif.Model.SecretsInclude
 /-! line-protocol ops for C20: the path of a secret / config value taken from the environment -/
 open Lean
 namespace CV.Ops.C20
@@ -123,8 +124,53 @@ def jsonBytes : Handler := fun args =>
   | .error e => bad e
   | .ok v => Json.mkObj [("ok", Json.str (String.ofList (CV.Bytes.jsonRender 0 v)))]
 
+def sectJson (d : Val.KVs) (k : String) : Json :=
+  match Val.lookup k d with
+  | some v => v.toJson
+  | none => Json.null
+
+/-- the include path, stage level: `Mapping.Clone().Merge`, the resolution of the included model, `importResources`,
+`ResolveEnvironment` of the including model; answers the two sections -/
+def incResolve : Handler := fun args =>
+  match getDict args "main", getDict args "inc" with
+  | .ok main, .ok inc =>
+    let top := getStrMap args "env"
+    let file := getStrMap args "inc_env"
+    match includeModel top file main inc with
+    | .err e => Json.mkObj [("err", e)]
+    | .panic s => Json.mkObj [("panic", s)]
+    | .ok m =>
+      let r := resolveModel false top m
+      Json.mkObj [("ok", Json.mkObj [("secrets", sectJson r "secrets"), ("configs", sectJson r "configs"),
+        ("merged", strMapJson (mergeEnv top file))])]
+  | .error e, _ => bad e
+  | _, .error e => bad e
+
+/-- whole load of a model with one include entry that has an environment of its own -/
+def flowIncOp : Handler := fun args =>
+  match getDict args "main", getDict args "inc" with
+  | .ok main, .ok inc =>
+    let top := getStrMap args "env"
+    let file := getStrMap args "inc_env"
+    let pname := getStr args "pname"
+    match loadDictInc top file pname main inc with
+    | .err e => Json.mkObj [("err", e)]
+    | .panic s => Json.mkObj [("panic", s)]
+    | .ok p =>
+      let same := match loadInc top file pname main inc with
+        | .ok q => objsJson (sortObjs q.secrets) == objsJson (sortObjs p.secrets) && objsJson (sortObjs q.configs) == objsJson (sortObjs p.configs)
+        | _ => false
+      if !same then bad "Secrets.loadInc ≠ Secrets.loadDictInc" else
+      Json.mkObj [("ok", Json.mkObj [
+        ("secrets", objsJson (sortObjs p.secrets)), ("configs", objsJson (sortObjs p.configs)),
+        ("yaml0", (render .yaml false p).toJson), ("yaml1", (render .yaml true p).toJson),
+        ("json0", (render .json false p).toJson), ("json1", (render .json true p).toJson)])]
+  | .error e, _ => bad e
+  | _, .error e => bad e
+
 def handlers : List (String × Handler) :=
   [("c20.resolve", resolve), ("c20.setName", setName), ("c20.procExt", procExt), ("c20.decode", decode),
-   ("c20.marshal", marshal), ("c20.apply", apply), ("c20.flow", flowOp), ("c20.jsonBytes", jsonBytes)]
+   ("c20.marshal", marshal), ("c20.apply", apply), ("c20.flow", flowOp), ("c20.jsonBytes", jsonBytes),
+   ("c20.incResolve", incResolve), ("c20.flowInc", flowIncOp)]
 
 end CV.Ops.C20
